@@ -44,6 +44,25 @@ def solo_results(seed, n):
         return [f.result()['results'][0] for f in futs]
 
 
+def solo_fresh(seed, pool):
+    """for entries that run with a left-over label table: their reference is the same program with a fresh table"""
+    import copy
+    asm = core.load_asm()
+    root = tempfile.mkdtemp(prefix='bbv-c16-')
+    try:
+        out = {}
+        for i, e in enumerate(pool):
+            if e.get('stale'):
+                e2 = dict(e, stale=False)
+                r = c16runner.run_entry(asm, e2, root)
+                if r['ok']:
+                    r['labels'] = sorted(r['labels'])
+                out[i] = r
+        return out
+    finally:
+        shutil.rmtree(root, ignore_errors=True)
+
+
 def describe(r):
     if r['ok']:
         return '%d bytes %s.., %d labels, %d constants' % (len(r['out']) // 2, r['out'][:16], len(r['labels']), len(r['constants']))
@@ -85,6 +104,9 @@ def history_shard(acc, sh, deadline):
                 got = norm(c16runner.run_entry(asm, pool[i], root))
                 after, _ = monitors.tables_digest(asm)
                 want = norm(solo[i])
+                if pool[i].get('stale') and str(i) in sh.get('fresh', {}):
+                    want = norm(sh['fresh'][str(i)])      # a left-over table must not change what the program assembles to
+                    acc['ctr']['calls_with_leftover_label_table'] += 1
                 if pos and any(j != i for j in seq[:pos]):
                     acc['ntkeys'].add(core.ckey(sh['seed'], h, pos))
                 case = {'kind': 'history', 'seed': sh['seed'], 'history': h, 'upto': pos, 'length': sh['length']}
@@ -175,9 +197,10 @@ def run_shard(sh, deadline):
 def plan(tier, seed):
     n = len(c16runner.build_pool(seed))
     solo = solo_results(seed, n)
+    fresh = {str(k): v for k, v in solo_fresh(seed, c16runner.build_pool(seed)).items()}
     nh, length = (16, 200) if tier == 'quick' else (500, 200)
     per = 1 if tier == 'quick' else 8
-    shards = [{'kind': 'history', 'seed': seed, 'solo': solo, 'histories': list(range(lo, min(nh, lo + per))), 'length': length} for lo in range(0, nh, per)]
+    shards = [{'kind': 'history', 'seed': seed, 'solo': solo, 'fresh': fresh, 'histories': list(range(lo, min(nh, lo + per))), 'length': length} for lo in range(0, nh, per)]
     rng = random.Random('c16-hs-%d' % seed)
     hs = [0, 1, 2, 3] + ([rng.randrange(4, 1 << 31) for _ in range(4)] if tier == 'quick' else list(range(4, 40)) + [rng.randrange(40, 1 << 31) for _ in range(24)])
     hs += ['random'] * (2 if tier == 'quick' else 6)
@@ -206,7 +229,8 @@ def replay(case):
     n = len(c16runner.build_pool(case['seed']))
     solo = solo_results(case['seed'], n)
     if case['kind'] == 'history':
-        history_shard(acc, {'seed': case['seed'], 'solo': solo, 'histories': [case['history']], 'length': case.get('length', 200)}, time.time() + 600)
+        fresh = {str(k): v for k, v in solo_fresh(case['seed'], c16runner.build_pool(case['seed'])).items()}
+        history_shard(acc, {'seed': case['seed'], 'solo': solo, 'fresh': fresh, 'histories': [case['history']], 'length': case.get('length', 200)}, time.time() + 600)
     else:
         hashseed_shard(acc, {'seed': case['seed'], 'solo': solo, 'hashseeds': [case['hashseed']], 'cli_ref': cli_probe(0)}, time.time() + 600)
     return acc
